@@ -35,6 +35,7 @@ func runC06(r *engine.Run) {
 	r.Rule("ORDER-commitclear", "in StateCache.commit no versions-map Add is reachable after the store that replaces the block's pending map: the pending writes are dropped only after all of them were published")
 	r.Rule("WHO-globalcache", "package statecache keeps no cache instance (StateCache, BlockCache, TransactionCache, QueryBlockCache) in a package-level variable: caches are per block / per transaction objects")
 	r.Rule("WHO-layers", "see C07: the key->versions map is installed into only by the commit path and removed from only by Remove, never by a lookup (a re-registered stale map hides a later commit's write: the lookup at that block then hits an ancestor's value)")
+	r.Rule("CLONE-deep", "see C07: Clone() of every value type the cache holds is a deep copy (a trie branch whose clone shares its value holder is rewritten in place by a later block: the entry an older block committed then answers with the newer value)")
 	r.NotDec = append(r.NotDec,
 		"hit ratio after LRU eviction (capacity arithmetic)", "equality with the block-tree oracle for every history")
 	whoReadOnly(r, "WHO-readonly")
@@ -59,6 +60,7 @@ func runC06(r *engine.Run) {
 	orderCommitClear(r, "ORDER-commitclear")
 	whoGlobalCache(r, "WHO-globalcache")
 	whoLayers(r)
+	cloneDeep(r)
 }
 
 // lruCallOnField matches c = (*lru.Cache).<method>(load of <recvType>.<field>, ...).
